@@ -148,6 +148,7 @@ type sess struct {
 
 	// UDP session timing (cases with a short UDPReadTimeout)
 	lastData map[*nbio.Conn]time.Time
+	attrLog  []string // remote>session id of every non-empty datagram handed over
 
 	// side conns: further stream conns of the same engine (fd table / dispatch: who gets whose bytes)
 	side      map[int]*sideConn
@@ -454,6 +455,7 @@ func (s *sess) onData(nc *nbio.Conn, data []byte) {
 	if string(want) != string(data) {
 		s.oracle = append(s.oracle, fmt.Sprintf("c02-delivery datagram %d: got %d bytes, sent %d (boundaries/content differ)", s.delD-1, len(data), len(d.data)))
 	}
+	s.attrLog = append(s.attrLog, fmt.Sprintf("%s>%d", d.addr, id))
 	// demux
 	if prev, ok := s.addrConn[d.addr]; ok && prev != nc {
 		s.oracle = append(s.oracle, "c02-udp-demux same remote "+d.addr+" attributed to two different conns")
@@ -1025,7 +1027,10 @@ func exec(e *lp.Exec) {
 				s.dead = true
 			} else {
 				e.P("> wait %d ok", ms)
-				s.state(e, "wait")
+				s.mu.Lock()
+				a := strings.Join(s.attrLog, ",")
+				s.mu.Unlock()
+				s.state(e, "wait["+a+"]")
 			}
 			continue
 		}
@@ -1455,6 +1460,7 @@ func gen(g *lp.Gen) {
 					g.P("wait %d", T*6/10)
 				}
 			}
+			g.P("wait 1") // shows the attribution of the last datagram
 			g.P("poll")
 			continue
 		}
